@@ -51,6 +51,18 @@ def gen_case(rng: random.Random, big: bool = False) -> dict:
         pool = ["n1", "n10", "n1a", "n1+", "n1 ", "n", "n1.", "n1z", "n100", "n1/x"]
         kind = rng.choice(["node", "edge"])
         targets = [(kind, t, "weight") for t in rng.sample(pool, rng.randint(2, min(8, len(pool))))]
+    if rng.random() < 0.25:
+        # ids and attributes with colons in them, as the engine's own ids have ("n:hello", "g:surface/n:1", "meta:salience");
+        # two targets whose 'kind:id:attr' strings coincide are one target to the filter and are not generated together
+        pool = [("node", "n:a", "weight"), ("node", "n:a", "meta:salience"), ("node", "n:a:b", "weight"), ("edge", "e:a|r|b", "weight"), ("node", "g:surface/n:1", "bias"),
+                ("node", "n:", "weight"), ("edge", ":x", "w:1:2"), ("node", "n:b", "weight"), ("node", "n:10", "weight"), ("node", "n:1", "weight")]
+        picked, seen_k = [], set()
+        for t_ in rng.sample(pool, rng.randint(2, 8)):
+            k_ = f"{t_[0]}:{t_[1]}:{t_[2]}"
+            if k_ not in seen_k:
+                seen_k.add(k_)
+                picked.append(t_)
+        targets = picked
     nops = rng.randint(0, 5)
     ops = [rng.choice(KINDS) for _ in range(nops)]
     nd = rng.randint(0, 40 if big else 9)
@@ -296,7 +308,9 @@ def check_case(case, sess: Session, history=None, full_perm_limit=6, rng=None, s
         env.append("l2-cap-exceeded")
     if len(app) > K:
         env.append("churn-cap-exceeded")
-    if not set(keys) <= proposed:
+    proposed_t = {(str(d[0]), str(d[1]), str(d[2])) for d in case["deltas"]}
+    if not set(keys) <= proposed or not {(str(d.target_kind), str(d.target_id), str(d.attr)) for d in r.approved_deltas} <= proposed_t:
+        # (compared field by field as well: 'node' + 'n:a' + 'meta:salience' and 'node' + 'n:a:meta' + 'salience' spell the same key)
         env.append("target-not-proposed")
     if keys != sorted(keys):
         env.append("not-canonical-order")
@@ -535,7 +549,7 @@ def _chunk(args):
 
 def main(tier: str, seed: int):
     sess = Session(PID, tier, seed, level="exploration", rule=RULE)
-    sess.assume("NaN/inf delta *inputs* and target ids/attrs containing ':' are outside the generated domain")
+    sess.assume("NaN/inf delta *inputs* are outside the generated domain; ids / attributes may contain ':' but two distinct targets with the same 'kind:id:attr' string (one target to the filter) are not generated together")
     sess.assume("the cooldown clause is judged on the merged provenance (smallest contributing op index), as the documented pipeline merges before the cooldown step; a target all of whose contributors are in cooldown must never be approved")
     sess.assume("reference comparison tolerance is 1e-9 x sum|v_i| per merged target (floating-point merge), vacuous when the running sum can overflow; order independence is always exact")
     total = 3000 if tier == "quick" else 600000
